@@ -209,6 +209,8 @@ fn gen_case(rng: &mut Rng) -> Case {
         }
     }
     requires.insert("zzz.nothing".into());
+    requires.insert("mm0".into());
+    requires.insert("mm1".into());
     requires.insert("a".into());
     requires.insert("b.a".into());
     let mut requires: Vec<String> = requires.into_iter().filter(|r| !r.is_empty() && !r.contains(' ')).collect();
@@ -403,6 +405,19 @@ fn resolve_ref(r: &Reference, files: &[String], s: &str) -> Resolved {
             }
         }
     }
+    // a present `---@meta <name>` file that the key could denote (by path or by its own name): unspecified
+    let mut meta_touched = false;
+    for (f, _, all) in &info {
+        if let Some(m) = meta_name(f) {
+            if keys.iter().any(|k| m == *k || suffix_match(&m, k) || all.iter().any(|n| n == k || suffix_match(n, k))) {
+                lenient.insert((*f).clone());
+                meta_touched = true;
+            }
+        }
+    }
+    if meta_touched {
+        return Resolved { expect: Expect::Unspecified, lenient };
+    }
     // ambiguity of a file's own primary name makes everything about it unspecified
     let ambiguous = info.iter().any(|(f, p, _)| p.len() > 1 && lenient.contains(*f));
     if ambiguous {
@@ -443,8 +458,21 @@ fn rel_of(p: &std::path::Path) -> String {
     p.to_string_lossy().strip_prefix(&format!("{BASE}/")).map(|s| s.to_string()).unwrap_or_else(|| p.to_string_lossy().to_string())
 }
 
+/// A sixth of the files name their module themselves (`---@meta <name>` as first line). What a require of
+/// such a file's path-derived name or of its own name gives is not part of the statement (Unspecified while
+/// the file is present), but the file must not disturb the resolution of the other files — in particular not
+/// after it has been removed and another file takes over its path-derived name.
+fn meta_name(file: &str) -> Option<String> {
+    if file == USER {
+        return None;
+    }
+    let h = fnv(file.as_bytes());
+    if h % 6 == 0 { Some(format!("mm{}", (h / 6) % 3)) } else { None }
+}
+
 fn module_text(file: &str) -> String {
-    format!("local M = {{ id = {} }}\nfunction M.hello() return \"{file}\" end\nreturn M\n", fnv(file.as_bytes()) % 100_000)
+    let head = meta_name(file).map(|m| format!("---@meta {m}\n")).unwrap_or_default();
+    head + &format!("local M = {{ id = {} }}\nfunction M.hello() return \"{file}\" end\nreturn M\n", fnv(file.as_bytes()) % 100_000)
 }
 
 const USER: &str = "ws/user_main.lua";
